@@ -3,6 +3,7 @@ package rules
 import (
 	"fmt"
 	"go/types"
+	"sort"
 	"strings"
 	"sync"
 
@@ -69,6 +70,13 @@ func reachLocal(fn *ssa.Function, pred func(*ssa.CallCommon) bool) *reachNode {
 				if com.IsInvoke() {
 					g = seam(com)
 					calleeVal = nil
+					if g == nil {
+						for _, h := range core.SeamAll(com) {
+							if h = resolveWrapper(h); inPkg(h) && !reachCut[h] {
+								n.callees = append(n.callees, h)
+							}
+						}
+					}
 				} else if g == nil {
 					if _, isB := com.Value.(*ssa.Builtin); !isB {
 						n.hasDynamic = true
@@ -97,6 +105,14 @@ func reachLocal(fn *ssa.Function, pred func(*ssa.CallCommon) bool) *reachNode {
 				}
 				if g = resolveWrapper(g); inPkg(g) {
 					n.values = append(n.values, g)
+				}
+				if gl, isGlobal := (*op).(*ssa.Global); isGlobal && gl.Pkg != nil && core.PartOf(gl.Pkg, pkg) {
+					// a package-level table of functions built once by the initializer: reading it obtains its entries
+					for _, h := range globalFuncs(gl) {
+						if h = resolveWrapper(h); inPkg(h) {
+							n.values = append(n.values, h)
+						}
+					}
 				}
 			}
 			if mc, ok := in.(*ssa.MakeClosure); ok {
@@ -239,6 +255,11 @@ func lowestReaching(c *core.Ctx, pkgRel string, preds ...func(*ssa.CallCommon) b
 						if g := seam(ci.Common()); g != nil && g != fn && !reachCut[g] && all(g) {
 							lower = true
 						}
+						for _, g := range core.SeamAll(ci.Common()) {
+							if g != fn && !reachCut[g] && all(g) {
+								lower = true
+							}
+						}
 					}
 					var ops []*ssa.Value
 					for _, op := range in.Operands(ops) {
@@ -365,7 +386,7 @@ func appRunTable(c *core.Ctx, runFn *ssa.Function, runnersField string, maxLen i
 					return srt(ip, a)
 				}
 			}
-			return t, []absint.Value{app}, nil
+			return t, []absint.Value{receiverFor(runFn, c.Named("app", "App"), app)}, nil
 		}
 		check := func(ip *absint.Interp, out absint.Outcome) {
 			w := fmt.Sprintf("%d runner(s): trace=%v => %s", n, trace, showOutcome(out))
@@ -447,4 +468,115 @@ func sliceFieldOf(T *types.Named, elem types.Type) string {
 		}
 	}
 	return ""
+}
+
+var globalFuncsMemo sync.Map // *ssa.Package -> map[*ssa.Global][]*ssa.Function
+
+// globalFuncs: the function values the package initializer stores (directly or inside composite literals) into g.
+func globalFuncs(g *ssa.Global) []*ssa.Function {
+	if g.Pkg == nil {
+		return nil
+	}
+	if m, ok := globalFuncsMemo.Load(g.Pkg); ok {
+		return m.(map[*ssa.Global][]*ssa.Function)[g]
+	}
+	out := map[*ssa.Global][]*ssa.Function{}
+	init := g.Pkg.Func("init")
+	if init != nil {
+		contents := map[ssa.Value]map[*ssa.Function]bool{}
+		root := func(v ssa.Value) ssa.Value {
+			for i := 0; i < 10; i++ {
+				switch x := v.(type) {
+				case *ssa.IndexAddr:
+					v = x.X
+				case *ssa.FieldAddr:
+					v = x.X
+				case *ssa.Slice:
+					v = x.X
+				case *ssa.MakeInterface:
+					v = x.X
+				case *ssa.ChangeType:
+					v = x.X
+				case *ssa.Convert:
+					v = x.X
+				case *ssa.UnOp:
+					v = x.X
+				default:
+					return v
+				}
+			}
+			return v
+		}
+		add := func(dst ssa.Value, fs ...*ssa.Function) bool {
+			ch := false
+			if contents[dst] == nil {
+				contents[dst] = map[*ssa.Function]bool{}
+			}
+			for _, f := range fs {
+				if f != nil && !contents[dst][f] {
+					contents[dst][f], ch = true, true
+				}
+			}
+			return ch
+		}
+		for changed, n := true, 0; changed && n < 8; n++ {
+			changed = false
+			for _, b := range init.Blocks {
+				for _, in := range b.Instrs {
+					var dst, val ssa.Value
+					switch x := in.(type) {
+					case *ssa.Store:
+						dst, val = root(x.Addr), x.Val
+					case *ssa.MapUpdate:
+						dst, val = root(x.Map), x.Value
+					default:
+						continue
+					}
+					switch v := val.(type) {
+					case *ssa.Function:
+						changed = add(dst, v) || changed
+					case *ssa.MakeClosure:
+						f, _ := v.Fn.(*ssa.Function)
+						changed = add(dst, f) || changed
+					default:
+						for f := range contents[root(val)] {
+							changed = add(dst, f) || changed
+						}
+					}
+				}
+			}
+		}
+		for v, fs := range contents {
+			if gl, ok := v.(*ssa.Global); ok {
+				for f := range fs {
+					out[gl] = append(out[gl], f)
+				}
+				sort.Slice(out[gl], func(i, j int) bool { return out[gl][i].Pos() < out[gl][j].Pos() })
+			}
+		}
+	}
+	globalFuncsMemo.Store(g.Pkg, out)
+	return out[g]
+}
+
+// receiverFor: the receiver to call fn with when the table's object is a T: the object itself, or - when fn is a
+// method of a wrapper that embeds or holds the T (a run context made per call) - such a wrapper around it.
+func receiverFor(fn *ssa.Function, T *types.Named, obj *absint.Tok) absint.Value {
+	owner := ownerOf(fn)
+	if owner == nil || T == nil || owner == T {
+		return obj
+	}
+	st := core.StructOf(owner)
+	if st == nil {
+		return obj
+	}
+	for i := 0; i < st.NumFields(); i++ {
+		if core.NamedOf(derefType(st.Field(i).Type())) == T {
+			w := absint.NewTok("wrapper("+obj.ID+")", "wrapper")
+			w.Attr["zeroed"] = absint.Bool(true)
+			w.Fields[st.Field(i).Name()] = obj
+			return w
+		}
+	}
+	return obj
 }
